@@ -22,8 +22,7 @@ package schema
 //@   at call WriteString#1: assert arg1 == ad.Provider
 //@   at call WriteString#2: assert arg1 == ad.Addresses[rangeindex]
 //@   at call Write#3: assert arg1 == ad.Metadata
-//@   at call WriteByte#1: assert ad.IsRm && arg1 == 1
-//@   at call WriteByte#2: assert !ad.IsRm && arg1 == 0
+//@   at call WriteByte: assert arg1 == ite(ad.IsRm, 1, 0)
 //@   loop 1: invariant rangeindex < len(ad.Addresses)
 //@   loop 2: invariant rangeindex < len(ad.Addresses)
 //@   ensures-local result1 == nil ==> count("call:Write") == 3 && count("call:WriteByte") == 1
@@ -41,8 +40,7 @@ package schema
 //@   at call WriteString#2: assert arg1 == p.ID
 //@   at call WriteString#3: assert arg1 == p.Addresses[rangeindex]
 //@   at call Write#4: assert arg1 == p.Metadata
-//@   at call WriteByte#1: assert ad.ExtendedProvider.Override && arg1 == 1
-//@   at call WriteByte#2: assert !ad.ExtendedProvider.Override && arg1 == 0
+//@   at call WriteByte: assert arg1 == ite(ad.ExtendedProvider.Override, 1, 0)
 //@   loop 1: invariant rangeindex < len(p.Addresses)
 //@   loop 2: invariant rangeindex < len(p.Addresses)
 //@   ensures-local result1 == nil ==> count("call:Write") == 4 && count("call:WriteByte") == 1 && count("call:Sum") == 1
